@@ -50,6 +50,8 @@ def gen(tier, rng, harness, driver):
             if mode != "2":
                 # (the same observers, then the ADDRESS SPACE of the global variable and the function is edited: the text is the one the edits give unobserved)
                 lines.append("!edit.as %s %s" % (name, mode))
+    # the calling-convention FIELD set to every number (keywords, the holes between them, the numbers beyond): printed text is accepted and read back as that number
+    lines += ["!cc.rt %d" % n for n in range(0, 1101)]
     for site in ("call", "invoke", "callbr"):
         for kind in ("func", "param", "load", "bitcast", "alias", "asm"):
             for sg, nx in (("F(v;)", 0), ("F(i32;i8)", 0), ("G(i32;p0(i8))", 0), ("G(i32;p0(i8))", 2), ("G(v;)", 1), ("F(p0(F(v;));i32)", 0)):
